@@ -35,6 +35,45 @@ func runC06(c *core.Ctx) {
 	ruleOpenStreamFilterOrder(c)
 	ruleLZWWidthAdvance(c, "C06-R7")
 	ruleLZWConstants(c, "C06-R7")
+	ruleCCITTRunBoundary(c)
+}
+
+// ruleCCITTRunBoundary: make-up codes may add up to exactly the row width; the
+// terminating code that must follow (T.4: every run ends with a terminating
+// code, possibly of length 0) is still read.
+func ruleCCITTRunBoundary(c *core.Ctx) {
+	const pk = "pdf/internal/filter/ccittfax"
+	c.Check("C06-R8", pk+".(*Reader).decodeFullRun/boundary", "a run whose make-up codes already add up to the full row width is legal (the encoder writes it for full-width runs when the width is a multiple of 64) and is followed by a terminating code: the overflow exit must be strict (total > Columns)", func(o *core.Ob) {
+		fn := c.Prog.Func(pk, "(*Reader).decodeFullRun")
+		g := fn.Graph()
+		info := fn.Info()
+		total := localVar(fn, "total", 0)
+		n := 0
+		for _, bv := range g.BranchVertices() {
+			if bv.Cond.Expr == nil || !core.Mentions(info, bv.Cond.Expr, total) {
+				continue
+			}
+			for _, a := range bv.Implied(core.EdgeTrue) {
+				cmp, ok := a.AsCmp()
+				if !ok || !strings.HasSuffix(core.ExprStr(cmp.R), ".Columns") && !strings.HasSuffix(core.ExprStr(cmp.L), ".Columns") {
+					continue
+				}
+				n++
+				o.At(fn.Site(bv.AST, "overflow exit "+core.ExprStr(bv.Cond.Expr)))
+				op := cmp.Op
+				if strings.HasSuffix(core.ExprStr(cmp.L), ".Columns") {
+					op = core.FlipOp(op)
+				}
+				if op != token.GTR {
+					o.Fail("the run is abandoned when total %s Columns; a run of exactly Columns pixels would lose its terminating code and the rest of the image is decoded out of step", op)
+				}
+			}
+		}
+		o.Require(n == 1, "expected one overflow comparison of total with Columns, found %d", n)
+		// the terminating states end the run
+		src := c.Prog.Src(fn.Decl.Body)
+		o.Require(strings.Contains(src, "st==S_TermW||st==S_TermB||st==S_EOL||r.err!=nil"), "the run must end at a terminating code, at EOL or on error")
+	})
 }
 
 func runC07(c *core.Ctx) {
